@@ -232,3 +232,84 @@ func zzC11p3AllTypesBytes() {
 	vf.Assert("re-decode-equal", err == nil && vf.CanonEqual(back, again))
 	vf.Reach("end")
 }
+
+// C11.p4: a rejected frame leaves nothing behind: after a decode that ended in an error (unknown
+// enum number, truncated frame, empty frame) the next frame decodes to its own message and the
+// byte count reported is that frame's length (decoders share pooled buffers).
+func zzC11p4AfterRejectedFrame() {
+	e := NewEncoding()
+	var bad []byte
+	switch vf.Choose("rejected.frame", 4) {
+	case 0: // well-formed, but the converter rejects it
+		pb := &autogen.Message{Message: &autogen.Message_Disconnect{Disconnect: &autogen.Disconnect{ResultCode: autogen.ResultCode(9999), ResultString: "stale"}}}
+		bad, _ = proto.Marshal(pb)
+	case 1: // truncated
+		var buf bytes.Buffer
+		e.EncodeTo(&buf, &message.UpstreamCall{CallID: "call-id-that-is-cut", DestinationNodeID: "dst", Name: "n", Type: "t", Payload: []byte{1, 2, 3}})
+		bad = buf.Bytes()[:buf.Len()-4]
+	case 2: // wrong-length uuid
+		pb := &autogen.Message{Message: &autogen.Message_UpstreamResumeRequest{UpstreamResumeRequest: &autogen.UpstreamResumeRequest{RequestId: 4, StreamId: []byte{1, 2, 3}}}}
+		bad, _ = proto.Marshal(pb)
+	case 3:
+		bad = []byte{}
+	}
+	_, m0, err0 := e.DecodeFrom(bytes.NewReader(bad))
+	vf.Assert("bad-frame-is-an-error", err0 != nil && m0 == nil)
+	g := &vfmsg.Gen{Profile: vf.Choose("profile", 5)}
+	want := g.Build(vf.Choose("kind", 6)*7, vf.Choose("ext", 2) == 1) // kinds 0, 7, 14, 21, 28, 35
+	var buf bytes.Buffer
+	n, err := e.EncodeTo(&buf, want)
+	vf.Assume(err == nil)
+	rn, got, err := e.DecodeFrom(&buf)
+	vf.Assert("next-frame-decodes", err == nil && got != nil)
+	vf.Assert("count-is-that-frames-length", rn == n)
+	vf.Assert("next-frame-decodes-to-its-own-message", vf.CanonEqual(want, got))
+	vf.Reach("end")
+}
+
+// C12.q: unknown enum numbers in every place a QoS or result code travels: the decoder answers with
+// an error or with a message that encodes again and decodes back to itself - never a message the
+// library itself cannot re-encode.
+func zzC12qEnumNumbers() {
+	vals := [...]int32{0, 1, 2, 3, 255, 256, -1, -2, -256, 2147483647, -2147483648}
+	q := autogen.QoS(vals[vf.Choose("qos.number", len(vals))])
+	rc := autogen.ResultCode(vals[vf.Choose("result.code.number", len(vals))])
+	id := make([]byte, 16)
+	var pb autogen.Message
+	switch vf.Choose("message", 7) {
+	case 0:
+		pb.Message = &autogen.Message_UpstreamOpenRequest{UpstreamOpenRequest: &autogen.UpstreamOpenRequest{RequestId: 2, SessionId: "s", Qos: q}}
+	case 1:
+		pb.Message = &autogen.Message_DownstreamOpenRequest{DownstreamOpenRequest: &autogen.DownstreamOpenRequest{RequestId: 2, Qos: q}}
+	case 2:
+		pb.Message = &autogen.Message_DownstreamMetadata{DownstreamMetadata: &autogen.DownstreamMetadata{RequestId: 3, Metadata: &autogen.DownstreamMetadata_UpstreamOpen{UpstreamOpen: &autogen.UpstreamOpen{StreamId: id, SessionId: "s", Qos: q}}}}
+	case 3:
+		pb.Message = &autogen.Message_DownstreamMetadata{DownstreamMetadata: &autogen.DownstreamMetadata{RequestId: 3, Metadata: &autogen.DownstreamMetadata_DownstreamResume{DownstreamResume: &autogen.DownstreamResume{StreamId: id, Qos: q}}}}
+	case 4:
+		pb.Message = &autogen.Message_UpstreamOpenResponse{UpstreamOpenResponse: &autogen.UpstreamOpenResponse{RequestId: 2, AssignedStreamId: id, ResultCode: rc}}
+	case 5:
+		pb.Message = &autogen.Message_UpstreamChunkAck{UpstreamChunkAck: &autogen.UpstreamChunkAck{StreamIdAlias: 1, Results: []*autogen.UpstreamChunkResult{{SequenceNumber: 1, ResultCode: rc}}}}
+	case 6:
+		pb.Message = &autogen.Message_Disconnect{Disconnect: &autogen.Disconnect{ResultCode: rc}}
+	}
+	frame, err := proto.Marshal(&pb)
+	vf.Assume(err == nil)
+	e := NewEncoding()
+	var m message.Message
+	var derr error
+	panicked := vf.Panics(func() { _, m, derr = e.DecodeFrom(bytes.NewReader(frame)) })
+	vf.Assert("decode-never-panics", !panicked)
+	vf.Assert("error-or-message", (derr != nil) != (m != nil))
+	if m != nil {
+		var buf bytes.Buffer
+		_, eerr := e.EncodeTo(&buf, m)
+		vf.Assert("accepted-message-encodes-again", eerr == nil)
+		if eerr == nil {
+			_, back, rerr := e.DecodeFrom(&buf)
+			vf.Assert("accepted-message-round-trips", rerr == nil && vf.CanonEqual(m, back))
+		}
+		vf.Reach("accepted")
+	} else {
+		vf.Reach("rejected")
+	}
+}
